@@ -1402,3 +1402,230 @@ def located_fault_program(rng, kind, context):
     forms.append(f)
     forms.append("(display 'not-reached)")
     return forms, idx, marker
+
+
+# ------------------------------------------------------------------------------------------
+# C11: the list library against a model on python lists
+# ------------------------------------------------------------------------------------------
+class PyList:
+    """python model of the data: ints, symbols (str), pairs as ('pair', a, b), nil as ()"""
+    @staticmethod
+    def from_items(items, tail=()):
+        v = tail
+        for x in reversed(items):
+            v = ("pair", x, v)
+        return v
+
+    @staticmethod
+    def render(v):
+        if v == ():
+            return "()"
+        if isinstance(v, bool):
+            return "#t" if v else "#f"
+        if isinstance(v, int):
+            return str(v)
+        if isinstance(v, str):
+            return v
+        items = []
+        while isinstance(v, tuple) and v and v[0] == "pair":
+            items.append(PyList.render(v[1]))
+            v = v[2]
+        if v == ():
+            return "(" + " ".join(items) + ")"
+        return "(" + " ".join(items) + " . " + PyList.render(v) + ")"
+
+    @staticmethod
+    def canon(v):
+        if v == ():
+            return "()"
+        if isinstance(v, bool):
+            return "#t" if v else "#f"
+        if isinstance(v, int):
+            return "i%d" % v
+        if isinstance(v, str):
+            return "(sym %s)" % v.encode().hex()
+        return "(pair %s %s)" % (PyList.canon(v[1]), PyList.canon(v[2]))
+
+
+def rand_atom(rng):
+    return rng.choice([0, 1, 2, 3, 7, -1, 42, "a", "b", "c", True, False])
+
+
+def rand_list(rng, maxlen=12, depth=2, improper=0.15):
+    n = rng.randint(0, maxlen) if rng.random() < 0.8 else rng.randint(0, 3)
+    items = []
+    for _ in range(n):
+        if depth > 0 and rng.random() < 0.2:
+            items.append(rand_list(rng, 4, depth - 1, improper))
+        else:
+            items.append(rand_atom(rng))
+    tail = ()
+    if items and rng.random() < improper:
+        tail = rand_atom(rng)
+    return PyList.from_items(items, tail)
+
+
+def py_items(v):
+    items = []
+    while isinstance(v, tuple) and v and v[0] == "pair":
+        items.append(v[1])
+        v = v[2]
+    return items, v
+
+
+def is_pair(v):
+    return isinstance(v, tuple) and len(v) == 3 and v[0] == "pair"
+
+
+class LibError(Exception):
+    pass
+
+
+def py_eqv(a, b):
+    if is_pair(a) or is_pair(b):
+        return False
+    return type(a) == type(b) and a == b
+
+
+def py_equal(a, b):
+    if is_pair(a) and is_pair(b):
+        return py_equal(a[1], b[1]) and py_equal(a[2], b[2])
+    if is_pair(a) or is_pair(b):
+        return False
+    return py_eqv(a, b)
+
+
+def list_call(rng):
+    """returns (scheme text, expected canonical value or 'error', procedure name)"""
+    q = lambda v: "'" + PyList.render(v) if (is_pair(v) or v == () or isinstance(v, str)) else PyList.render(v)
+    name = rng.choice(["car", "cdr", "cons", "cxr", "list", "make-list", "null?", "pair?", "list?", "append", "map", "for-each",
+                       "fold-left", "fold-right", "list-tail", "list-ref", "last-pair", "memq", "memv", "equal?", "apply",
+                       "compose"])
+    try:
+        if name in ("car", "cdr"):
+            v = rand_list(rng) if rng.random() < 0.9 else rand_atom(rng)
+            if not is_pair(v):
+                raise LibError()
+            return "(%s %s)" % (name, q(v)), PyList.canon(v[1] if name == "car" else v[2]), name
+        if name == "cons":
+            a, b = rand_list(rng, 3), rand_list(rng, 4)
+            return "(cons %s %s)" % (q(a), q(b)), PyList.canon(("pair", a, b)), name
+        if name == "cxr":
+            path = "".join(rng.choice("ad") for _ in range(rng.randint(2, 3)))
+            v = rand_list(rng, 4, 3, 0.1)
+            cur = v
+            text = "(c%sr %s)" % (path, q(v))
+            for step in reversed(path):
+                if not is_pair(cur):
+                    return text, "error", "c%sr" % path
+                cur = cur[1] if step == "a" else cur[2]
+            return text, PyList.canon(cur), "c%sr" % path
+        if name == "list":
+            items = [rand_atom(rng) for _ in range(rng.randint(0, 6))]
+            return "(list %s)" % " ".join(q(x) for x in items), PyList.canon(PyList.from_items(items)), name
+        if name == "make-list":
+            k = rng.randint(0, 6)
+            x = rand_atom(rng)
+            return "(make-list %d %s)" % (k, q(x)), PyList.canon(PyList.from_items([x] * k)), name
+        if name in ("null?", "pair?", "list?"):
+            v = rng.choice([rand_list(rng, 4), rand_atom(rng), ()])
+            items, tail = py_items(v)
+            res = {"null?": v == (), "pair?": is_pair(v), "list?": (is_pair(v) or v == ()) and tail == ()}[name]
+            return "(%s %s)" % (name, q(v)), PyList.canon(res), name
+        if name == "append":
+            ls = [rand_list(rng, 4, 1, 0.0) for _ in range(rng.randint(0, 4))]
+            if ls and rng.random() < 0.3:
+                ls[-1] = rng.choice([rand_atom(rng), rand_list(rng, 3, 1, 0.5)])
+            if rng.random() < 0.3 and len(ls) >= 2:
+                ls[rng.randrange(len(ls) - 1)] = ()
+            if not ls:
+                return "(append)", "()", name
+            acc = ls[-1]
+            for l in reversed(ls[:-1]):
+                items, tail = py_items(l)
+                acc = PyList.from_items(items, acc)
+            return "(append %s)" % " ".join(q(l) for l in ls), PyList.canon(acc), name
+        if name == "map":
+            l = rand_list(rng, 8, 0, 0.0)
+            items, _ = py_items(l)
+            return "(map (lambda (z) (tick 7 (list z))) %s)" % q(l), PyList.canon(PyList.from_items([PyList.from_items([x]) for x in items])) + " ticks=%d" % len(items), name
+        if name == "for-each":
+            l = rand_list(rng, 8, 0, 0.0)
+            items, _ = py_items(l)
+            return "(begin (for-each (lambda (z) (tick 7 z)) %s) 'done)" % q(l), "(sym 646f6e65) ticks=%d" % len(items), name
+        if name == "fold-left":
+            l = rand_list(rng, 8, 0, 0.0)
+            items, _ = py_items(l)
+            acc = ()
+            for x in items:
+                acc = ("pair", x, acc)          # minischeme argument order: (f elem acc)
+            return "(fold-left cons '() %s)" % q(l), PyList.canon(acc), name
+        if name == "fold-right":
+            l = rand_list(rng, 8, 0, 0.0)
+            items, _ = py_items(l)
+            acc = ()
+            for x in reversed(items):
+                acc = PyList.from_items([x, acc])
+            return "(fold-right list '() %s)" % q(l), PyList.canon(acc), name
+        if name in ("list-tail", "list-ref"):
+            l = rand_list(rng, 8, 1, 0.2)
+            items, tail = py_items(l)
+            k = rng.randint(0, len(items) + 1)
+            cur = l
+            for _ in range(k):
+                if not is_pair(cur):
+                    raise LibError()
+                cur = cur[2]
+            if name == "list-ref":
+                if not is_pair(cur):
+                    raise LibError()
+                cur = cur[1]
+            return "(%s %s %d)" % (name, q(l), k), PyList.canon(cur), name
+        if name == "last-pair":
+            l = rand_list(rng, 8, 1, 0.3)
+            if not is_pair(l):
+                raise LibError()
+            cur = l
+            while is_pair(cur[2]):
+                cur = cur[2]
+            return "(last-pair %s)" % q(l), PyList.canon(cur), name
+        if name in ("memq", "memv"):
+            l = rand_list(rng, 8, 1, 0.0)
+            x = rand_atom(rng)
+            cur = l
+            while is_pair(cur) and not py_eqv(x, cur[1]):
+                cur = cur[2]
+            res = cur if is_pair(cur) else False
+            return "(%s %s %s)" % (name, q(x), q(l)), PyList.canon(res), name
+        if name == "equal?":
+            a = rand_list(rng, 5, 2, 0.2)
+            b = a if rng.random() < 0.5 else rand_list(rng, 5, 2, 0.2)
+            return "(equal? %s %s)" % (q(a), q(b)), PyList.canon(py_equal(a, b)), name
+        if name == "apply":
+            l = rand_list(rng, 5, 0, 0.0)
+            items, _ = py_items(l)
+            pre = [rand_atom(rng) for _ in range(rng.randint(0, 2))]
+            return "(apply list %s %s)" % (" ".join(q(x) for x in pre), q(l)), PyList.canon(PyList.from_items(pre + items)), name
+        # compositions
+        l1, l2 = rand_list(rng, 5, 0, 0.0), rand_list(rng, 5, 0, 0.0)
+        i1, _ = py_items(l1)
+        i2, _ = py_items(l2)
+        allv = i1 + i2
+        if not allv:
+            raise LibError()
+        k = rng.randrange(len(allv))
+        return "(list-ref (append %s %s) %d)" % (q(l1), q(l2), k), PyList.canon(allv[k]), "compose"
+    except LibError:
+        # regenerate the text for the error case
+        return list_call_error(rng, name)
+
+
+def list_call_error(rng, name):
+    q = lambda v: "'" + PyList.render(v) if (is_pair(v) or v == () or isinstance(v, str)) else PyList.render(v)
+    if name in ("car", "cdr", "last-pair"):
+        return "(%s %s)" % (name, rng.choice(["'()", "5", "'a"])), "error", name
+    if name in ("list-tail", "list-ref"):
+        l = rand_list(rng, 4, 0, 0.0)
+        items, _ = py_items(l)
+        return "(%s %s %d)" % (name, q(l), len(items) + 1 + rng.randint(0, 2)), "error", name
+    return "(car '())", "error", "car"
